@@ -12,7 +12,9 @@ META = dict(
                "that the graph is covered by the tip and one other tip (so the repository also holds non-ancestors), "
                "and for each branch every specifier: N (0..revno+1), -N, last:N, revid: (every revision, the ghost), the "
                "branch's own dotted revno of every ancestor, before: of numbers / ids / dotted / tags, tag:, "
-               "mainline:, ancestor: against every other tip. The meanings are checked for mutual consistency on "
+               "mainline:, ancestor: against every other tip, and the specifiers that carry another branch (revno:N:BRANCH, "
+               "-N:BRANCH, mainline: and before: of those, branch:, submit:) for other branches whose tip is merged into, "
+               "diverged from or ahead of the context branch, or empty. The meanings are checked for mutual consistency on "
                "the specification; on the real branch TLC checks get_rev_id against the left-hand history, the "
                "dotted map (domain = ancestry, injective, mainline = <<n>>, structural constraints of the numbering "
                "scheme), id -> dotted -> id round trips with cold and partially filled caches in random order, and "
@@ -35,7 +37,15 @@ def _res(fn, n):
 
 
 def spec_string(sp, dotted, other_url, revno):
-    k, a, b = sp
+    k, a, b, o = sp
+    if k == "bnum":
+        return "revno:%d:%s" % (a, other_url(o))
+    if k == "bneg":
+        return "-%d:%s" % (a, other_url(o))           # no prefix: resolved by the DWIM lookup
+    if k == "branch":
+        return "branch:" + other_url(a)
+    if k == "submit":
+        return "submit:"
     if k == "num":
         return "%d" % a
     if k == "neg":
@@ -52,12 +62,14 @@ def spec_string(sp, dotted, other_url, revno):
         return "tag:tag-%d" % a
     if k == "notag":
         return "tag:no-such-tag"
-    if k == "mainline":
+    if k == "mainline" and not b:
         return "mainline:revid:" + hc.rid(a).decode()
     if k == "ancestor":
         return "ancestor:" + other_url(a)
     if k == "before":
-        return "before:" + spec_string((b, a, ""), dotted, other_url, revno)
+        return "before:" + spec_string((b, a, "", o), dotted, other_url, revno)
+    if k == "mainline" and b:
+        return "mainline:" + spec_string((b, a, "", o), dotted, other_url, revno)
     raise ValueError(sp)
 
 
@@ -103,17 +115,41 @@ def observe(h, area, kind, case, rng):
     # specifiers, both resolution paths
     res = []
     b6 = fresh()
-    specs = list(case["specs"])
+    specs = [list(sp) for sp in case["specs"]]
     rng.shuffle(specs)
+    urls = {}
+
+    def other_url(x):
+        if x not in urls:
+            urls[x] = h.shared(x).user_url
+        return urls[x]
+
+    def shown(s):
+        for x, u in urls.items():
+            s = s.replace(u, "<branch at %d>" % x)
+        return s
+
+    def resolve(sp, br):
+        s = spec_string(sp, dotted, other_url, len(lh))
+        ih = _res(lambda: RevisionSpec.from_string(s).in_history(br).rev_id, n)
+        ar = _res(lambda: RevisionSpec.from_string(s).as_revision_id(br), n)
+        res.append({"sp": sp, "s": shown(s), "ih": ih, "ar": ar})
+
     with b6.lock_read():
         for sp in specs:
+            if sp[0] in ("branch", "submit"):
+                continue
             if sp[0] in ("dotted", "before") and (sp[2] == "dotted" or sp[0] == "dotted") and sp[1] not in dotted:
                 continue        # the branch reported no dotted revno for it: the map laws already fail
-            s = spec_string(sp, dotted, lambda x: h.shared(x).user_url, len(lh))
-            ih = _res(lambda: RevisionSpec.from_string(s).in_history(b6).rev_id, n)
-            ar = _res(lambda: RevisionSpec.from_string(s).as_revision_id(b6), n)
-            res.append({"sp": sp, "s": s.replace(h.shared(sp[1]).user_url, "<branch at %d>" % sp[1]) if sp[0] == "ancestor" else s,
-                        "ih": ih, "ar": ar})
+            resolve(sp, b6)
+    for sp in specs:
+        if sp[0] == "submit":       # the submit branch is configuration of the context branch
+            base.set_submit_branch(other_url(sp[1]))
+            b7 = fresh()
+            with b7.lock_read():
+                resolve(sp, b7)
+        elif sp[0] == "branch":     # branch: fetches into the context branch: no read lock around it
+            resolve(sp, fresh())
     return {"getrev": getrev, "getrev2": getrev2, "map": rmap, "back": back, "res": res}
 
 
@@ -177,17 +213,17 @@ def run(ctx):
     off = ctx.seed
     L = ("LawsHoldOnSpec",)
     if ctx.quick:
-        plan = [("<=4 revisions, ghost", hc.gen_cfg(1, 4, 2, 1, 3, off), L, True, True),
-                ("5 revisions", hc.gen_cfg(5, 5, 2, 0, 30, off), L, True, False)]
-        remote_every, pack_every = 12, 8
+        plan = [("<=4 revisions, ghost", hc.gen_cfg(1, 4, 2, 1, 4, off), L, True, True),
+                ("5 revisions", hc.gen_cfg(5, 5, 2, 0, 50, off), L, True, False)]
+        remote_every, pack_every = 20, 10
     else:
         plan = [("<=4 revisions, ghost", hc.gen_cfg(1, 4, 2, 1), L, True, True),
-                ("5 revisions", hc.gen_cfg(5, 5, 2, 0, 3, off), L, True, False),
-                ("5 revisions, ghost", hc.gen_cfg(5, 5, 2, 1, 12, off), L, True, False),
+                ("5 revisions", hc.gen_cfg(5, 5, 2, 0, 4, off), L, True, False),
+                ("5 revisions, ghost", hc.gen_cfg(5, 5, 2, 1, 16, off), L, True, False),
                 ("<=4 revisions, 3 parents, ghost", hc.gen_cfg(3, 4, 3, 1, 3, off), L, True, False),
-                ("6 revisions", hc.gen_cfg(6, 6, 2, 0, 60, off), L, True, False),
+                ("6 revisions", hc.gen_cfg(6, 6, 2, 0, 80, off), L, True, False),
                 ("120 seeded random graphs, 7-10 revisions, <= 3 parents, ghost", hc.gen_cfg(7, 10, 3, 1), L, True, False,
-                 hc.random_graphs(ctx.rng, 120, 7, 10))]
+                 {"graphs": hc.random_graphs(ctx.rng, 120, 7, 10)})]
         remote_every, pack_every = 10, 6
     cases = hc.generate(ctx, "HistoryC22Gen", plan)
     groups = hc.group_by_graph(cases)
@@ -209,12 +245,13 @@ def run(ctx):
         c = row["c"]
         for law in v["failed"]:
             if law == "specs":
-                for i in v["badspecs"]:
+                for i, path in v["badspecs"]:
                     x = row["ob"]["res"][i - 1]
                     form = x["sp"][0] + (":" + x["sp"][2] if x["sp"][2] else "")
-                    ctx.violation("law:specs:%s:%s" % (form, "remote" if row["kind"] == "remote" else "local"),
+                    ctx.violation("law:specs:%s:%s:%s" % (form, path, "remote" if row["kind"] == "remote" else "local"),
                                   "specifier %r on %s branch (graph %s, tip %s) resolves to in_history=%s "
-                                  "as_revision_id=%s, outside its meaning" % (x["s"], row["kind"], c["par"], c["t"], x["ih"], x["ar"]),
+                                  "as_revision_id=%s; the %s result is outside its meaning" % (
+                                      x["s"], row["kind"], c["par"], c["t"], x["ih"], x["ar"], path),
                                   {"c": c, "kind": row["kind"], "res": x, "map": row["ob"]["map"]})
             else:
                 ctx.violation("law:%s:%s" % (law, "remote" if row["kind"] == "remote" else "local"),
